@@ -264,6 +264,72 @@ _VALIDATE_SNAPSHOT = [
      'Certificate principal mismatch')]
 
 
+def sshsig_cert_type(sshsig: Any, consts: Dict[str, int]) -> int:
+    """the certificate type `validate_sshsig` hands to `cert.validate(<type>, principal)`"""
+    fn = _func_ast(sshsig.validate_sshsig)
+    found = []
+    for node in ast.walk(fn):
+        if isinstance(node, ast.Call) and isinstance(node.func, ast.Attribute) and node.func.attr == 'validate' \
+                and isinstance(node.func.value, ast.Name) and node.func.value.id == 'cert':
+            if len(node.args) != 2 or not isinstance(node.args[0], ast.Name) or node.args[0].id not in consts \
+                    or ast.unparse(node.args[1]) != 'principal':
+                raise TranslateError('validate_sshsig: cert.validate call not understood: ' + ast.unparse(node))
+            found.append(consts[node.args[0].id])
+    if len(found) != 1:
+        raise TranslateError(f'validate_sshsig: expected one cert.validate call, found {len(found)}')
+    return found[0]
+
+
+def signer_opt_mode(misc: Any, sshsig: Any) -> Dict[str, Any]:
+    """How OptionsParser._add_option treats names, probed on the live class with the allowed-signers handlers
+    replaced by recorders (so that no pattern/time parsing is involved)."""
+    value_opts = sorted(sshsig.SSHAllowedSignersEntry._handlers)
+    if not all(isinstance(n, str) and n.isascii() for n in value_opts):
+        raise TranslateError('allowed-signers handler names are not ASCII strings')
+
+    def rec(self: Any, option: str, value: str) -> None:
+        self.options[option] = ('handled', value)
+
+    class Probe(misc.OptionsParser):
+        _handlers = {n: rec for n in value_opts}
+
+    def run(*options: str) -> Any:
+        p = Probe()
+        try:
+            for o in options:
+                p._add_option(o)
+        except ValueError:
+            return 'ValueError'
+        except (AttributeError, TypeError) as e:
+            return type(e).__name__
+        return p.options
+    hv = value_opts[0]
+    r = run('AbC', hv.upper() + '=x', 'DeF=1')
+    if r == {'abc': True, hv: ('handled', 'x'), 'def': ['1']}:
+        lower = True
+    elif r == {'AbC': True, hv.upper(): ['x'], 'DeF': ['1']}:
+        lower = False
+    else:
+        raise TranslateError(f'_add_option: treatment of upper-case names not understood ({r!r})')
+    r1, r2 = run('zzz', 'zzz=1'), run(hv, hv + '=x')
+    if r1 == 'ValueError' and r2 == 'ValueError':
+        ftv = True
+    elif r1 == 'AttributeError' and r2 == {hv: ('handled', 'x')}:
+        ftv = False
+    else:
+        raise TranslateError(f'_add_option: flag-then-value not understood ({r1!r}, {r2!r})')
+    r3 = run(hv)
+    if r3 == 'ValueError':
+        bare = True
+    elif r3 == {hv: True}:
+        bare = False
+    else:
+        raise TranslateError(f'_add_option: bare value option not understood ({r3!r})')
+    if run('zzz') != {'zzz': True} or run('zzz=1', 'zzz=2') != {'zzz': ['1', '2']} or run('=x') != 'ValueError':
+        raise TranslateError('_add_option: baseline behaviour changed')
+    return {'lower': lower, 'flag_then_value_raises': ftv, 'bare_value_opt_raises': bare, 'value_opts': value_opts}
+
+
 def translate(ctx: Any) -> Dict[str, Any]:
     import asyncssh
     pk = importlib.import_module('asyncssh.public_key')
@@ -285,9 +351,21 @@ def translate(ctx: Any) -> Dict[str, Any]:
             inst = asyncssh.generate_private_key(alg.decode(), **({'key_size': 1024} if alg == b'ssh-rsa' else {}))
             algs = set(inst.all_sig_algorithms)
         except Exception:
-            algs = set(handler.all_sig_algorithms)
-            if not algs:      # instance-level table of a security-key type we cannot instantiate
-                algs = {alg}
+            # security-key types: no device to generate a private key on; their `all_sig_algorithms` can be an
+            # instance attribute (sk_ecdsa adds the webauthn- name in __init__), so read it off a public key
+            # object built from a software key of the underlying type
+            algs = set()
+            base = {b'sk-ecdsa-sha2-nistp256@openssh.com': 'ecdsa-sha2-nistp256',
+                    b'sk-ssh-ed25519@openssh.com': 'ssh-ed25519'}.get(alg)
+            if base is not None:
+                try:
+                    from asyncssh.packet import String
+                    soft = asyncssh.generate_private_key(base).convert_to_public().encode_ssh_public()
+                    algs = set(pk.decode_ssh_public_key(String(alg) + soft + String(b'ssh:')).all_sig_algorithms)
+                except Exception:
+                    algs = set()
+            if not algs:
+                algs = set(handler.all_sig_algorithms) or {alg}
         mod = importlib.import_module(handler.__module__)
         hash_algs = getattr(mod, '_hash_algs', None)
         table = []
@@ -352,9 +430,14 @@ def translate(ctx: Any) -> Dict[str, Any]:
     info['validate_steps'] = [m for _c, m in steps]
 
     hashes = [(n, h().digest_size) for n, h in sshsig._hashes.items()]
+    misc = importlib.import_module('asyncssh.misc')
+    sig_ctype = sshsig_cert_type(sshsig, consts)
+    info['sshsig_cert_type'] = sig_ctype
+    mode = signer_opt_mode(misc, sshsig)
+    info['signer_opt_mode'] = mode
 
     out = []
-    out.append('import AsyncsshModel.Model.Cert')
+    out.append('import AsyncsshModel.Model.SshSig')
     out.append('/- GENERATED by harness/props/_c16_translate.py from the asyncssh tree -- do not edit. -/')
     out.append('namespace AsyncsshModel.Gen.C16')
     out.append('open AsyncsshModel AsyncsshModel.Cert')
@@ -393,6 +476,18 @@ def translate(ctx: Any) -> Dict[str, Any]:
     out.append('def sshsigHashes : List (Bytes × Nat) := [' +
                ', '.join(f'({lean_bytes(n)}, {s})' for n, s in hashes) + ']')
     out.append('')
+    out.append('/-- the certificate type `validate_sshsig` passes to `cert.validate` (0 = ANY, 1 = USER, 2 = HOST) -/')
+    out.append(f'def sshsigCertType : Nat := {sig_ctype}')
+    out.append('')
+    out.append('/-- `OptionsParser._add_option` as probed on the live class, with the allowed-signers handler names -/')
+    b = lambda x: 'true' if x else 'false'
+    out.append('def signerOptMode : AsyncsshModel.SshSig.OptMode := {')
+    out.append(f'  lower := {b(mode["lower"])},')
+    out.append(f'  flagThenValueRaises := {b(mode["flag_then_value_raises"])},')
+    out.append(f'  bareValueOptRaises := {b(mode["bare_value_opt_raises"])},')
+    out.append('  valueOpts := [' + ', '.join('[' + ', '.join(str(ord(c)) for c in n) + ']'
+                                           for n in mode['value_opts']) + '] }')
+    out.append('')
     out.append('end AsyncsshModel.Gen.C16')
     content = '\n'.join(out) + '\n'
     path = os.path.join(vlib.LEAN_DIR, 'AsyncsshModel', 'Gen', 'C16.lean')
@@ -408,5 +503,6 @@ def translate(ctx: Any) -> Dict[str, Any]:
         'validate_sshsig': vlib.ast_pin('asyncssh/sshsig.py', 'validate_sshsig'),
         '_signed_data': vlib.ast_pin('asyncssh/sshsig.py', '_signed_data'),
         'match_options': vlib.ast_pin('asyncssh/sshsig.py', 'SSHAllowedSignersEntry.match_options'),
+        '_add_option': vlib.ast_pin('asyncssh/misc.py', 'OptionsParser._add_option'),
     }
     return info
